@@ -150,6 +150,33 @@ class Program(object):
                 raise TranslationError(str(error), statement)
         return None
 
+    def resolve_directive_operands(self):
+        """
+        An ORG needs an address that is known before anything is laid out: a number, or an
+        EQU symbol or two-term expression over EQU symbols. SETDP and END may also name
+        labels, but every symbol they name has to be defined.
+        """
+        for statement in self.statements:
+            if statement.instruction.is_origin:
+                constant = self.constant_value(statement.operand.value, statement)
+                if constant is None or constant.is_negative() or constant.int > 0xFFFF:
+                    raise TranslationError(
+                        "[{}] is not a constant address".format(statement.operand.operand_string), statement
+                    )
+                statement.operand.value = constant
+            elif statement.instruction.mnemonic in ("SETDP", "END"):
+                self.check_symbols_defined(statement.operand.value, statement)
+
+    def check_symbols_defined(self, value, statement):
+        """
+        Raises a TranslationError if the value names a symbol that is not in the symbol table.
+        """
+        if value.is_symbol() and value.ascii() not in self.symbol_table:
+            raise TranslationError("[{}] not in symbol table".format(value.ascii()), statement)
+        if value.is_expression():
+            self.check_symbols_defined(value.left, statement)
+            self.check_symbols_defined(value.right, statement)
+
     def translate_statements(self):
         """
         Translates all the parsed statements into their respective
@@ -159,6 +186,7 @@ class Program(object):
         for index, statement in enumerate(self.statements):
             self.save_symbol(index, statement)
         self.resolve_defined_symbols()
+        self.resolve_directive_operands()
 
         for index, statement in enumerate(self.statements):
             statement.resolve_symbols(self.symbol_table)
